@@ -75,22 +75,27 @@ CLAIMED = {
             'Trusted: reference models; reference <= 3000 full architectures.'),
     'C16': ('property-based testing: generated graphs with design-variable nodes x encoders x create flag x in/on/out-of-range '
             'values (negative, too large, non-integer, +/-inf); oracle = clamp model for stored and reported values',
-            'Generated-input search against an explicit clamp model; direct set_des_var_value included.',
+            'Generated-input search against an explicit clamp model; direct set_des_var_value included; handed-out '
+            'architectures are re-inspected after later decodes, copies must be independent, a baseline value on the '
+            'design-space graph must neither leak nor change.',
             'NaN is not generated (no contract).'),
     'C17': ('property-based testing: generated graphs with metric nodes of every direction/reference/type combination x all '
             'decoded architectures x drawn evaluator plans; oracle = implication table from the statement + evaluation model',
-            'Generated-input search; implications are taken literally (only-if where the text says so).',
+            'Generated-input search; implications are taken literally (only-if where the text says so); the evaluator '
+            'returns exactly the requested nodes, all metric nodes of the design space, or one persistent dict.',
             'Permanent = necessary closure of the start nodes for the if-direction; every-architecture (R-SEL) for only-if.'),
     'C05': ('property-based testing of operation histories (generated sequences over decode/enumerate/statistics/fix/free/'
             'mutate/pickle, bounded-exhaustive for length <= 2/3 on fixed specs) with a fresh-object differential oracle '
             'after every step, plus child processes with other hash seeds and node-id orders',
             'History search: the whole operation sequence is one generated value (shrinks as a unit); after each step the '
-            'used processor must be indistinguishable from a freshly built one.',
+            'used processor must be indistinguishable from a freshly built one, and up to 12 probe vectors are each decoded '
+            'as the first decode of their own fresh processor.',
             'Fresh objects are built with identical node ids so that only the history differs; other id orders are '
             'exercised through the salt and in child processes.'),
     'C15': ('property-based testing of fix/free histories against the filtered unfixed enumeration (subset law in both '
             'directions) and restoration differential after freeing',
-            'History search over (variable, value) fixes and frees; oracle = filter model on the unfixed enumeration.',
+            'History search over (variable, value) fixes and frees; oracle = filter model on the unfixed enumeration plus a '
+            'differential against the never-fixed problem (full vector with the fixed values inserted).',
             'Rows where the fixed variable is inactive may or may not be kept (the statement allows both).'),
     'C19': ('generated schedules (function kind x limit x completion offset on a dense grid around the expiry x repetitions, '
             'run under load from 16 concurrent shards) with an outcome-trichotomy / heartbeat / stray-interrupt oracle',
@@ -109,11 +114,13 @@ CLAIMED = {
             'independent mapping model on the reference architecture',
             'Generated-input search; the expected option and the expected resolved node set come from a mapping model '
             'that shares no code with adsg_core.',
-            'Chained SupDSG -> SupDSG resolution is not generated.'),
+            'Mapping registration order, nested choices below shared nodes, design-variable / metric nodes as mapping keys and '
+            'a second supplementary graph chained onto the first are generated.'),
     'C08': ('property-based testing of derive/decode histories over a pool of live graph objects (generated operation '
             'sequences); oracle = snapshot re-observation of every pool member after every operation',
             'History search: the operation sequence is one generated value; any observable change of an existing graph '
-            'object is a violation.',
+            'object is a violation. Constrain operations use all four constraint types over 2-3 choices (also '
+            'unsatisfiable sizes), with a seed-independent core of such histories.',
             'Observation uses only public queries (nodes, edges, feasible, final, next choices, options, connection sets, '
             'stored values).'),
     'C12': ('property-based testing: generated connector settings (incl. degenerate and pattern-shaped) x candidate time '
